@@ -140,6 +140,15 @@ def zoo(rnd):
         built = _build(rnd, False, rnd.random() < 0.7, rnd.random() < 0.4)
     coll = built[0]
     out.append(("annotation", coll))
+    # a collection that is itself the answer of a range query (carries the query's flags and bounds)
+    try:
+        cw = rnd.random() < 0.5
+        sub = coll.query_by_position(coll.start, coll.end, completely_within=cw) if rnd.random() < 0.5 else \
+            coll.query_by_position(coll.start + (coll.end - coll.start) // 4, coll.end, completely_within=cw)
+        if not sub.is_empty:
+            out.append(("annotation", sub))
+    except Exception:
+        pass
     for g in coll.genes[:1]:
         out.append(("gene", g))
         out.append(("transcript", g.transcripts[0]))
